@@ -50,6 +50,8 @@ type acctWorld struct {
 	ownDir    string
 	dirChecks int
 	lastStep  bool
+	opts      lib.ServerOpts // how w.c was opened (for restarts)
+	restarts  int
 
 	// conservative bounds for in-flight reservations (see DESIGN C03)
 	started, finished atomic.Int64
@@ -100,7 +102,8 @@ func makeAR(rng *rand.Rand, cas []acctItem, tag string) []byte {
 
 // opKinds for evidence.
 var acctOps = []string{"put", "put", "put", "put", "put-ac", "put-raw", "get", "get-unknown", "getzstd", "put", "put-badhash", "put-short", "put-long", "put-readerr", "put-toolarge", "put-ac", "put-raw",
-	"get", "get-unknown", "get-partial", "getzstd", "contains", "findmissing", "getvalidated", "proxyfetch-ok", "proxyfetch-fail", "put-zero"}
+	"get", "get-unknown", "get-partial", "getzstd", "contains", "findmissing", "getvalidated", "proxyfetch-ok", "proxyfetch-fail", "put-zero",
+	"proxyfetch-ac", "proxyfetch-raw", "restart"}
 
 func (w *acctWorld) step(rng *rand.Rand, concurrent bool) {
 	ctx := context.Background()
@@ -240,6 +243,68 @@ func (w *acctWorld) step(rng *rand.Rand, concurrent bool) {
 		} else if ar == nil {
 			outcome = "miss"
 		}
+	case "restart":
+		if concurrent || w.srv != nil || w.restarts >= 3 {
+			return
+		}
+		outcome = w.restart(rng)
+	case "proxyfetch-ac", "proxyfetch-raw":
+		// AC / RAW entries pulled from the backend (size unknown to the caller), healthy or failing part-way
+		if w.px == nil {
+			return
+		}
+		kind := cache.AC
+		if op == "proxyfetch-raw" {
+			kind = cache.RAW
+		}
+		k := w.acKeys[rng.IntN(len(w.acKeys))]
+		if rng.IntN(2) == 0 {
+			k = lib.RandHash(rng) // certainly not held locally
+		}
+		val := makeAR(rng, w.cas, w.caseID)
+		w.px.SetBlob(kind, k, val)
+		if rng.IntN(3) == 0 {
+			pl := lib.ProxyPlan{Once: true}
+			switch rng.IntN(4) {
+			case 0:
+				pl.GetErr = errors.New("backend down")
+			case 1:
+				pl.ErrAt = 1 + rng.IntN(len(val))
+			case 2:
+				pl.CutAt = 1 + rng.IntN(len(val))
+			case 3:
+				pl.ExtraBytes = 1 + rng.IntN(100)
+			}
+			w.px.SetPlan(kind, k, pl)
+			outcome = "faulty-"
+		} else {
+			outcome = ""
+		}
+		var rc io.ReadCloser
+		var err error
+		track(int64(len(val)), func() {
+			if kind == cache.AC && rng.IntN(2) == 0 {
+				var ar *pb.ActionResult
+				ar, _, err = w.c.GetValidatedActionResult(ctx, k)
+				_ = ar
+			} else {
+				rc, _, err = w.c.Get(ctx, kind, k, -1, 0)
+			}
+		})
+		switch {
+		case err != nil:
+			outcome += "err"
+		case rc == nil:
+			outcome += "done"
+		default:
+			_, _ = io.Copy(io.Discard, rc)
+			_ = rc.Close()
+			outcome += "hit"
+		}
+		w.px.ClearPlan(kind, k)
+		if rng.IntN(2) == 0 {
+			w.px.Delete(kind, k)
+		}
 	case "proxyfetch-ok", "proxyfetch-fail":
 		if w.px == nil {
 			return
@@ -282,6 +347,39 @@ func (w *acctWorld) step(rng *rand.Rand, concurrent bool) {
 	}
 	w.r.Count("op." + op + "." + outcome)
 	w.log("%s %s size=%d -> %s", op, it.hash[:8], size, outcome)
+}
+
+// restart re-opens the cache directory with a new instance (the old one is quiescent and is never used again):
+// the other storage mode half of the time, and a max_size that is the same, larger or smaller. Entries written
+// under the previous mode keep their on-disk format; the monitors must hold for the new instance as well, and
+// for everything it later evicts, overwrites or fetches.
+func (w *acctWorld) restart(rng *rand.Rand) string {
+	lib.WaitEvictionsDrained(w.c, 2*time.Second)
+	o := w.opts
+	if rng.IntN(2) == 0 {
+		o.Storage = map[string]string{"zstd": "uncompressed", "uncompressed": "zstd"}[w.storage]
+	}
+	switch rng.IntN(4) {
+	case 0:
+		o.MaxSize = max(w.max/2/4096*4096, 8*lib.KiB)
+	case 1:
+		o.MaxSize = w.max * 2
+	}
+	o.ZstdImpl = []string{"go", "cgo"}[rng.IntN(2)]
+	if w.px != nil {
+		w.px = lib.NewFakeProxy(o.Storage == "zstd")
+		o.Proxy = w.px
+	}
+	c, _, err := lib.NewCache(o)
+	if err != nil {
+		w.r.Violation(w.which+":restart:startup-failed", "a new instance refuses to start on the directory the previous one left behind: "+err.Error(), w.detail(nil))
+		return "startup-failed"
+	}
+	w.log("restart storage %s->%s max %d->%d", w.storage, o.Storage, w.max, o.MaxSize)
+	res := "ok." + map[bool]string{true: "same-mode", false: "other-mode"}[o.Storage == w.storage]
+	w.c, w.opts, w.storage, w.max = c, o, o.Storage, o.MaxSize
+	w.restarts++
+	return res
 }
 
 // serverStep drives the same cache through the HTTP and gRPC front ends,
@@ -540,6 +638,7 @@ func runAcctEngine(r *lib.Run, which string) {
 			w.c = c
 			_ = dir
 		}
+		w.opts = opts
 		// key pools: sizes relative to max (sub-block, block edges, fits, exactly fills, exceeds)
 		nk := 3 + rng.IntN(10)
 		sizes := []int64{1, 100, 4095, 4096, 4097, max / 8, max / 8, max / 4, max / 4, max / 3, max / 2, max - 8192, max - 4096, max - 100, max, max + 1}
@@ -567,6 +666,13 @@ func runAcctEngine(r *lib.Run, which string) {
 			}
 			r.Count("histories.sequential")
 		} else {
+			if w.srv == nil && rng.IntN(3) == 0 {
+				// populate under one configuration, restart under another, then run the concurrent phase on the mixed directory
+				for s := 0; s < nops/3+2; s++ {
+					w.step(rng, true)
+				}
+				r.Count("op.restart-before-concurrent." + w.restart(rng))
+			}
 			hookDelay.Store(true)
 			workers := 2 + rng.IntN(7)
 			var wg sync.WaitGroup
